@@ -124,3 +124,17 @@ pub proof fn lemma_nothing_deferred(states: Seq<St>, notes: Seq<Note>, i: int)
 {
     assert(turn(states, notes, i));
 }
+
+/// the hypotheses of the sequence lemmas are not contradictory: a one-turn chain exists for a processed didOpen
+pub proof fn lemma_chain_inhabited(s0: St, u: Uri, t: Seq<char>)
+    requires !s0.in_task(), accepts(s0, u),
+    ensures exists|states: Seq<St>| chain(states, seq![Note::Open(u, t)]) && states[0] == s0
+        && last_for(states.last().applied, u) == Some(Some(t)),
+{
+    let s1 = St { applied: s0.applied.push((u, Some(t))), deferred: s0.deferred, known: s0.known.insert(u), depth: s0.depth };
+    let states = seq![s0, s1];
+    let notes = seq![Note::Open(u, t)];
+    assert(turn(states, notes, 0));
+    assert(chain(states, notes));
+    lemma_last_for_push(s0.applied, (u, Some(t)), u);
+}
